@@ -345,6 +345,24 @@ fn sequential_pairs(sets: &mut Sets, st: &mut Stats) {
     }
 }
 
+/// Many instances in one process: every instance must have its own randomness (master scalar from
+/// `setup`, first encapsulated secret).
+fn many_instances(sets: &mut Sets, st: &mut Stats, n: usize) {
+    let star = AccessPolicy::parse("*").unwrap();
+    for _ in 0..n {
+        let cc = Covercrypt::default();
+        if let Out::Ok((msk, mpk)) = call(|| cc.setup()) {
+            st.bump("instances");
+            if let Some(Ok(w)) = ser(&msk).ok().map(|b| crate::wire::WMsk::parse(&b)) {
+                sets.put("master scalar", w.s.clone());
+            }
+            if let Out::Ok((s, _)) = call(|| cc.encaps(&mpk, &star)) {
+                sets.put("encapsulated secret", real::secret_bytes(&s).to_vec());
+            }
+        }
+    }
+}
+
 pub fn run(tier: &str, _seed: u64, threads: usize) -> Stats {
     let n_total = if tier == "thorough" { 1_600_000 } else { 64_000 };
     // 4 instances, each shared by threads/4 threads (cross-thread and cross-instance freshness)
@@ -382,12 +400,13 @@ pub fn run(tier: &str, _seed: u64, threads: usize) -> Stats {
     {
         let mut seq = Sets::default();
         sequential_pairs(&mut seq, &mut st);
+        many_instances(&mut seq, &mut st, if tier == "thorough" { 70_000 } else { 1_200 });
         for (k, d) in &seq.dups {
             if *d > 0 {
                 st.findings.push(Finding {
                     prop: "C16".into(),
                     signature: format!("C16:repeated-value-in-back-to-back-calls:{k}"),
-                    detail: format!("{d} repeated {k}s when calling every ordered pair of operations back to back on one instance"),
+                    detail: format!("{d} repeated {k}s when calling every ordered pair of operations back to back on one instance, or across many fresh instances"),
                     replay: json!({"monitor": "c16", "phase": "sequential-pairs"}),
                 });
             }
